@@ -94,7 +94,22 @@ def member_sources(facts, res):
             while txt.startswith("(") and txt.endswith(")") and _balanced(txt[1:-1]):
                 txt = txt[1:-1]
             src[i["member"]] = txt
-        calls = [tbf.callee_name(x) for x in kids(tbf.body(c)) if x.get("k") in ("CallExpr", "CXXMemberCallExpr")]
+        # the member functions the constructor runs as statements, directly or through a private helper that only groups such calls
+        calls = []
+
+        def collect(fn_, depth=0):
+            for x in kids(tbf.body(fn_)):
+                if x.get("k") in ("CallExpr", "CXXMemberCallExpr") and (tbf.call_base(x) is None or strip(tbf.call_base(x)).get("k") == "CXXThisExpr"):
+                    nm = tbf.callee_name(x)
+                    cands = [g for g in facts.methods_of(K) if g["name"] == nm and tbf.body(g) is not None]
+                    if len(cands) == 1 and depth < 3:
+                        inner = [y for y in kids(tbf.body(cands[0]))]
+                        if inner and all(y.get("k") in ("CallExpr", "CXXMemberCallExpr") and (tbf.call_base(y) is None or strip(tbf.call_base(y)).get("k") == "CXXThisExpr") for y in inner):
+                            calls.append(nm)
+                            collect(cands[0], depth + 1)       # a helper made only of such calls: what it runs counts too
+                            continue
+                    calls.append(nm)
+        collect(c)
         out.append((c, src, calls))
     return out
 
@@ -103,7 +118,7 @@ def table_geometry(facts, res):
     R = "C04.1.level-tables"
     fn = facts.fn(K + "::precomputeTranslationCoef")
     f = tbf.rel(facts.path_of(fn))
-    ctor = [c for c, src, calls in member_sources(facts, res) if not is_copy(c) and "precomputeTranslationCoef" in calls]
+    ctor = [c for c, src, calls in member_sources(facts, res) if not is_copy(c) and calls]
     srcs = [src for c, src, calls in member_sources(facts, res) if c in ctor]
     if len(srcs) != 1:
         raise AnalysisBroken("%s: the constructor that builds the tables from a configuration was not identified" % K)
@@ -329,7 +344,7 @@ def operator_coherence(facts, res, cls=K, R="C04.2.table-subscripts"):
 # ------------------------------------------------------------------------------------------ C04.3
 def conventions(facts, res, geo):
     R = "C04.3.octant-offset-convention"
-    fn = facts.fn(K + "::precomputeRotationVectors")
+    fn = tbf.expand_member_helpers(facts, facts.fn(K + "::precomputeRotationVectors"))
     f = tbf.rel(facts.path_of(fn))
     body = tbf.body(fn)
     tbf.link_parents(body)
@@ -438,7 +453,7 @@ def conventions(facts, res, geo):
                     res.violation(R, f, fn["qname"], "octant-store:%s" % l.get("name"), x["l"][1], "in the octant loop '%s' is stored at `%s`, not at the child code the entry is built for" % (l.get("name"), facts.ntext(chain[0])))
     # ---- transfer offsets: in both builders the entry stored under code(x,y,z) is built from the vector -(x,y,z) * width
     for qn in (K + "::precomputeRotationVectors", K + "::precomputeTranslationCoef"):
-        g = facts.fn(qn)
+        g = tbf.expand_member_helpers(facts, facts.fn(qn))
         gb = tbf.body(g)
         tbf.link_parents(gb)
         trip = []
@@ -519,15 +534,32 @@ def leaf_centre(facts, res, geo, cls=K, fname="getLeafCenter", R="C04.4.leaf-cen
     f = tbf.rel(facts.path_of(m))
     ev = symx.SymEval(facts, m)
     ev.members.update(geo)
+    ev.consts["Dim"] = 3
     coord = sympy.symbols("c0 c1 c2", integer=True, nonnegative=True)
     ev.env[m["params"][0]["did"]] = tuple(coord)
-    rets = [x for x in walk(tbf.body(m)) if x.get("k") == "ReturnStmt" and kids(x)]
     vals = []
-    for r in rets:
-        # `if constexpr (Dim == 3) return {...}; else { loop }` : the explicit three-component return is the one analysed
-        v = ev.eval(kids(r)[0])
-        if isinstance(v, tuple) and len(v) == 3:
-            vals.append((r, v))
+
+    def run_until_return(st):
+        """executes statements; every `return e` met on a feasible path is evaluated in the state reached there"""
+        if st is None:
+            return
+        k_ = st.get("k")
+        if k_ == "CompoundStmt":
+            for c_ in kids(st):
+                run_until_return(c_)
+        elif k_ == "ReturnStmt" and kids(st):
+            v = symx.as_tuple(ev, ev.eval(kids(st)[0]))
+            if isinstance(v, tuple) and len(v) == 3:
+                vals.append((st, v))
+        elif k_ == "IfStmt":
+            c0 = ev.eval(st["c"][0])
+            if c0 != sympy.false:
+                run_until_return(st["c"][1])
+            if c0 != sympy.true and len(st["c"]) > 2:
+                run_until_return(st["c"][2])
+        else:
+            ev.exec(st)
+    run_until_return(tbf.body(m))
     if not vals:
         raise AnalysisBroken("%s::%s: no three-component return" % (cls, fname))
     corner = [k for k, v in geo.items() if isinstance(v, tuple)]
@@ -622,7 +654,7 @@ def run(res, tier):
     res.checker_cmds.append("./check C04")
     geo = table_geometry(facts, res)
     # geometry members used by the other clauses
-    cs = [src for c, src, calls in member_sources(facts, res) if "precomputeTranslationCoef" in calls and not is_copy(c)]
+    cs = [src for c, src, calls in member_sources(facts, res) if calls and not is_copy(c)]
     corner = [m for m, t in cs[0].items() if re.search(r"\.getBoxCorner\(\)$", t)]
     leafw = [m for m, v in geo.items() if v == W / sympy.Integer(2) ** (H - 1)]
     if len(corner) != 1 or len(leafw) != 1:
